@@ -40,16 +40,12 @@ type xSpec struct {
 }
 
 var xSpecs = []xSpec{
-	{"hashmap", "", "indexFor", 9},
 	{"hashmap", "", "NewHashMap", 1},
 	{"hashmap", "HashMap", "rehash", 1},
 	{"tree", "", "tax_hash", 9},
 	{"tree", "Edge", "DumpBitSet", 9},
-	{"tree", "Edge", "HashCode", 9},
 	{"tree", "Edge", "HashEquals", 9},
 	{"tree", "Edge", "SameBipartition", 9},
-	{"tree", "Edge", "TopoDepth", 0},
-	{"tree", "EdgeIndex", "Edges", 2},
 	{"tree", "Quartet", "HashCode", 9},
 	{"tree", "Quartet", "HashEquals", 9},
 	{"tree", "Tree", "IndexQuartets", 0},
@@ -142,7 +138,11 @@ func xSkeleton(fset *token.FileSet, body *ast.BlockStmt, maxDepth int) []string 
 	stmt = func(s ast.Stmt, d int) {
 		switch v := s.(type) {
 		case *ast.IfStmt:
-			out = append(out, "if "+xPrint(fset, v.Cond))
+			if v.Init != nil {
+				out = append(out, "if "+xPrint(fset, v.Init)+"; "+xPrint(fset, v.Cond))
+			} else {
+				out = append(out, "if "+xPrint(fset, v.Cond))
+			}
 			block(v.Body, d+1)
 			switch e := v.Else.(type) {
 			case *ast.BlockStmt:
@@ -197,6 +197,138 @@ func xSkeleton(fset *token.FileSet, body *ast.BlockStmt, maxDepth int) []string 
 	}
 	block(body, 0)
 	return out
+}
+
+
+// ---- semantic rows: expressions handed to Lean as terms of `Gotree.C04.Facts.GExpr`, evaluated there on probes
+// and compared with the model (an equivalent rewrite of the Go expression stays green).  Selectors are reduced to
+// their field name (`e.ntaxleft` -> "ntaxleft"), so renaming a receiver or a local does not matter.
+
+func gexpr(fset *token.FileSet, e ast.Expr) string {
+	switch v := e.(type) {
+	case *ast.ParenExpr:
+		return gexpr(fset, v.X)
+	case *ast.BasicLit:
+		if v.Kind == token.INT {
+			return "(.lit " + v.Value + ")"
+		}
+	case *ast.Ident:
+		return "(.var " + leanStr(v.Name) + ")"
+	case *ast.SelectorExpr:
+		return "(.var " + leanStr(v.Sel.Name) + ")"
+	case *ast.BinaryExpr:
+		return "(.bin " + leanStr(v.Op.String()) + " " + gexpr(fset, v.X) + " " + gexpr(fset, v.Y) + ")"
+	case *ast.UnaryExpr:
+		return "(.un " + leanStr(v.Op.String()) + " " + gexpr(fset, v.X) + ")"
+	case *ast.CallExpr:
+		name := xPrint(fset, v.Fun)
+		if se, ok := v.Fun.(*ast.SelectorExpr); ok {
+			name = se.Sel.Name
+		}
+		if len(v.Args) == 1 {
+			return "(.call1 " + leanStr(name) + " " + gexpr(fset, v.Args[0]) + ")"
+		}
+		if len(v.Args) == 2 {
+			return "(.call2 " + leanStr(name) + " " + gexpr(fset, v.Args[0]) + " " + gexpr(fset, v.Args[1]) + ")"
+		}
+	}
+	return "(.other " + leanStr(xPrint(fset, e)) + ")"
+}
+
+// the value a one-statement block gives: `x = E`, `x := E` or `return E`
+func blockValue(b *ast.BlockStmt) ast.Expr {
+	if b == nil || len(b.List) != 1 {
+		return nil
+	}
+	switch v := b.List[0].(type) {
+	case *ast.AssignStmt:
+		if len(v.Rhs) == 1 {
+			return v.Rhs[0]
+		}
+	case *ast.ReturnStmt:
+		if len(v.Results) >= 1 {
+			return v.Results[0]
+		}
+	}
+	return nil
+}
+
+// decision list of the first if / else-if / else chain of a body: (condition, value); the final else has condition 1
+func chainOf(fset *token.FileSet, body *ast.BlockStmt) ([]string, bool) {
+	var first *ast.IfStmt
+	for _, st := range body.List {
+		if is, ok := st.(*ast.IfStmt); ok {
+			first = is
+			break
+		}
+	}
+	var rows []string
+	for cur := first; cur != nil; {
+		val := blockValue(cur.Body)
+		if val == nil {
+			return nil, false
+		}
+		rows = append(rows, "("+gexpr(fset, cur.Cond)+", "+gexpr(fset, val)+")")
+		switch e := cur.Else.(type) {
+		case *ast.IfStmt:
+			cur = e
+		case *ast.BlockStmt:
+			val := blockValue(e)
+			if val == nil {
+				return nil, false
+			}
+			rows = append(rows, "((.lit 1), "+gexpr(fset, val)+")")
+			cur = nil
+		default:
+			cur = nil
+		}
+	}
+	return rows, len(rows) > 0
+}
+
+func firstIfCond(body *ast.BlockStmt) ast.Expr {
+	var c ast.Expr
+	ast.Inspect(body, func(n ast.Node) bool {
+		if is, ok := n.(*ast.IfStmt); ok && c == nil {
+			c = is.Cond
+		}
+		return c == nil
+	})
+	return c
+}
+
+func lastReturn(body *ast.BlockStmt) ast.Expr {
+	var r ast.Expr
+	ast.Inspect(body, func(n ast.Node) bool {
+		if rs, ok := n.(*ast.ReturnStmt); ok && len(rs.Results) >= 1 {
+			r = rs.Results[0]
+		}
+		return true
+	})
+	return r
+}
+
+// the function literal of `RunE:` in the composite literal of a command variable
+func runEOf(f *ast.File, cmdVar string) *ast.FuncLit {
+	var lit *ast.FuncLit
+	ast.Inspect(f, func(n ast.Node) bool {
+		vs, ok := n.(*ast.ValueSpec)
+		if !ok || len(vs.Names) != 1 || vs.Names[0].Name != cmdVar {
+			return true
+		}
+		ast.Inspect(vs, func(m ast.Node) bool {
+			if kv, ok := m.(*ast.KeyValueExpr); ok {
+				if id, ok := kv.Key.(*ast.Ident); ok && id.Name == "RunE" {
+					if fl, ok := kv.Value.(*ast.FuncLit); ok {
+						lit = fl
+					}
+				}
+			}
+			return true
+		})
+		return false
+	})
+	return lit
 }
 
 func leanStr(s string) string {
@@ -335,11 +467,57 @@ func GenTables(repo, out string) error {
 		}
 		facts = append(facts, row{key, xSkeleton(fset, found.Body, sp.depth)})
 	}
+	// the glue of `gotree stats splits` (cmd/splits.go): the function literal of RunE
+	if f, err := parser.ParseFile(fset, filepath.Join(repo, "cmd", "splits.go"), nil, 0); err != nil {
+		problems = append(problems, "cmd/splits.go: "+err.Error())
+	} else if fl := runEOf(f, "splitsCmd"); fl == nil {
+		problems = append(problems, "cmd/splits.go: RunE of splitsCmd not found")
+	} else {
+		facts = append(facts, row{"cmd.splitsCmd.RunE", xSkeleton(fset, fl.Body, 9)})
+	}
+	// semantic rows
+	find := func(dir, recv, name string) *ast.FuncDecl {
+		for _, fd := range decls[dir] {
+			if fd.Name.Name == name && xRecv(fd) == recv {
+				return fd
+			}
+		}
+		problems = append(problems, "function not found: "+dir+"/"+recv+"."+name)
+		return nil
+	}
+	type srow struct{ key, term string }
+	var sems []srow
+	addExpr := func(key string, e ast.Expr) {
+		if e == nil {
+			problems = append(problems, key+": shape not recognised")
+			return
+		}
+		sems = append(sems, srow{key, gexpr(fset, e)})
+	}
+	if fd := find("hashmap", "", "indexFor"); fd != nil {
+		addExpr("indexFor.ret", lastReturn(fd.Body))
+	}
+	if fd := find("tree", "Edge", "TopoDepth"); fd != nil {
+		addExpr("Edge.TopoDepth.err", firstIfCond(fd.Body))
+		addExpr("Edge.TopoDepth.ret", lastReturn(fd.Body))
+	}
+	if fd := find("tree", "EdgeIndex", "Edges"); fd != nil {
+		addExpr("EdgeIndex.Edges.keep", firstIfCond(fd.Body))
+	}
+	var chain []string
+	if fd := find("tree", "Edge", "HashCode"); fd != nil {
+		c, ok := chainOf(fset, fd.Body)
+		if !ok {
+			problems = append(problems, "Edge.HashCode: shape not recognised")
+		}
+		chain = c
+	}
 	var b strings.Builder
 	b.WriteString("-- GENERATED by harness/c04/extract.go (`vh gen-tables`) from tree/*.go and hashmap/hashmap.go; do not edit.\n")
 	b.WriteString("-- reach: function of package tree -> index routines reached through calls inside the package (by name, conditions ignored).\n")
 	b.WriteString("-- facts: function -> its skeleton (if-conditions, return expressions, assignments).\n")
-	b.WriteString("namespace Gotree.Gen.C04Facts\n\n")
+	b.WriteString("-- sem / hashCodeChain: Go expressions as terms of Gotree.C04.Facts.GExpr (evaluated on probes by Proofs/C04.lean).\n")
+	b.WriteString("import Gotree.Model.C04Facts\n\nnamespace Gotree.Gen.C04Facts\nopen Gotree.C04.Facts\n\n")
 	wr := func(name string, rs []row) {
 		fmt.Fprintf(&b, "def %s : List (String × List String) := [", name)
 		for i, r := range rs {
@@ -352,6 +530,21 @@ func GenTables(repo, out string) error {
 	}
 	wr("reach", rows)
 	wr("facts", facts)
+	b.WriteString("def sem : List (String × GExpr) := [")
+	for i, r := range sems {
+		if i > 0 {
+			b.WriteString(",")
+		}
+		fmt.Fprintf(&b, "\n  (%s, %s)", leanStr(r.key), r.term)
+	}
+	b.WriteString("]\n\ndef hashCodeChain : List (GExpr × GExpr) := [")
+	for i, r := range chain {
+		if i > 0 {
+			b.WriteString(",")
+		}
+		b.WriteString("\n  " + r)
+	}
+	b.WriteString("]\n\n")
 	fmt.Fprintf(&b, "def problems : List String := %s\n\nend Gotree.Gen.C04Facts\n", leanStrs(problems))
 	path := filepath.Join(out, "C04Facts.lean")
 	if old, err := os.ReadFile(path); err == nil && string(old) == b.String() {
